@@ -52,6 +52,17 @@ type Config struct {
 	ObjStm    bool   `json:"objstm"`
 	Encrypted bool   `json:"encrypted"`
 	Version   string `json:"version"`
+	// Exact: every placeholder reserves exactly as many bytes as its value
+	// takes (5; the values are then the integers 12345 / 67890 / 13579 for the
+	// model's "int" / "str" / "arr"): nothing of the reserved space is left
+	// to separate the value from what follows
+	Exact bool `json:"exact,omitempty"`
+}
+
+// baseFamily names the model configuration (the Exact variant shares it).
+func (c Config) baseFamily() string {
+	c.Exact = false
+	return c.family()
 }
 
 func (c Config) family() string {
@@ -64,6 +75,9 @@ func (c Config) family() string {
 	}
 	if c.Encrypted {
 		s[2] = "enc"
+	}
+	if c.Exact {
+		return strings.Join(s, "_") + "_exact"
 	}
 	return strings.Join(s, "_")
 }
@@ -97,7 +111,24 @@ const (
 	intValue = 12345
 	strValue = "secret-PH"
 	phSize   = 80
+	// Exact mode
+	exactStr = 67890
+	exactArr = 13579
 )
+
+func valueOf(kind string, exact bool) pdf.Native {
+	switch {
+	case kind == "int":
+		return pdf.Integer(intValue)
+	case exact && kind == "str":
+		return pdf.Integer(exactStr)
+	case exact:
+		return pdf.Integer(exactArr)
+	case kind == "str":
+		return pdf.String(strValue)
+	}
+	return pdf.Array{pdf.String(strValue), pdf.Integer(1)}
+}
 
 type place struct {
 	call int
@@ -161,9 +192,19 @@ func Execute(c *Case) (rec *Record, err error) {
 		var e error
 		switch cl.Op {
 		case "new":
-			phs[cl.P] = pdf.NewPlaceholder(w, phSize)
+			size := phSize
+			if c.Cfg.Exact {
+				size = 5
+			}
+			phs[cl.P] = pdf.NewPlaceholder(w, size)
 		case "put":
 			ref := w.Alloc()
+			if cl.C == 3 {
+				// the placeholder as an element of an array, other tokens behind it
+				e = w.Put(ref, pdf.Array{phs[cl.P], pdf.Integer(5), pdf.Name("N")})
+				places = append(places, place{i + 1, cl.P, ref, nil})
+				break
+			}
 			d := pdf.Dict{"X": phs[cl.P], "Tag": pdf.Integer(i)}
 			keys := []pdf.Name{"X"}
 			if cl.C == 2 {
@@ -193,11 +234,7 @@ func Execute(c *Case) (rec *Record, err error) {
 				e = stm.Close()
 			}
 		case "set":
-			if cl.V == "int" {
-				e = phs[cl.P].Set(pdf.Integer(intValue))
-			} else {
-				e = phs[cl.P].Set(pdf.String(strValue))
-			}
+			e = phs[cl.P].Set(valueOf(cl.V, c.Cfg.Exact))
 		case "close":
 			e = w.Close()
 			closed = e == nil
@@ -290,8 +327,20 @@ func Execute(c *Case) (rec *Record, err error) {
 	classify := func(v obj.Value) string {
 		switch x := v.(type) {
 		case obj.Int:
-			if x == intValue {
+			switch {
+			case x == intValue:
 				return "int"
+			case c.Cfg.Exact && x == exactStr:
+				return "str"
+			case c.Cfg.Exact && x == exactArr:
+				return "arr"
+			}
+		case obj.Array:
+			if len(x) == 2 {
+				if s, ok := x[0].(obj.Str); ok && string(s) == strValue && fmt.Sprint(x[1]) == "1" {
+					return "arr"
+				}
+				return "undecryptable"
 			}
 		case obj.Str:
 			if string(x) == strValue {
@@ -321,6 +370,30 @@ func Execute(c *Case) (rec *Record, err error) {
 	}
 	for _, pl := range places {
 		v, why := fetch(pl.ref)
+		if pl.keys == nil { // [ph 5 /N]
+			got := why
+			if got == "" {
+				a, isArr := v.(obj.Array)
+				switch {
+				case !isArr || len(a) != 3 || fmt.Sprint(a[1]) != "5" || fmt.Sprint(a[2]) != fmt.Sprint(obj.Name("N")):
+					got = "bad"
+				default:
+					e := a[0]
+					if r, isRef := e.(obj.Ref); isRef {
+						tv, twhy := fetch(pdf.NewReference(r.Num, r.Gen))
+						if twhy != "" {
+							got = twhy
+						} else {
+							got = classify(tv)
+						}
+					} else {
+						got = classify(e)
+					}
+				}
+			}
+			rec.Reads = append(rec.Reads, Read{Call: pl.call, P: pl.p, Got: got})
+			continue
+		}
 		d, isDict := v.(obj.Dict)
 		for _, k := range pl.keys {
 			got := why
@@ -397,6 +470,9 @@ func configs(thorough bool) []Config {
 				}
 				for _, v := range vs {
 					out = append(out, Config{Seekable: seek, ObjStm: os, Encrypted: enc, Version: v})
+				}
+				if !enc {
+					out = append(out, Config{Seekable: seek, ObjStm: os, Version: vs[0], Exact: true})
 				}
 			}
 		}
@@ -500,7 +576,7 @@ func Run(ctx *core.Ctx) error {
 	var cases []*Case
 	seenFam := map[string][]genLine{}
 	for _, cfg := range configs(ctx.Thorough()) {
-		fam := cfg.family()
+		fam := cfg.baseFamily()
 		if _, done := seenFam[fam]; !done {
 			res, err := ctx.MustHold(core.TLCOpts{Dir: "file", Module: "Placeholder", Cfg: "MC_Placeholder_fixed_" + fam + ".cfg", Workers: 8, Timeout: ctx.Dur(8, 20), XssMB: 512,
 				Constants: "two placeholders, programs of up to 6 calls, " + fam})
@@ -508,7 +584,11 @@ func Run(ctx *core.Ctx) error {
 				return err
 			}
 			states += res.Distinct
-			raw, _, err := core.GenCases[string](ctx, core.TLCOpts{Dir: "file", Module: "Gen_Placeholder", Cfg: "Gen_Placeholder_" + fam + ".cfg", Workers: 1, Timeout: ctx.Dur(8, 20), XssMB: 512, Mode: "evaluate",
+			gcfg := "Gen_Placeholder_" + fam + "_q.cfg" // programs of up to 5 calls; thorough: 6
+			if ctx.Thorough() {
+				gcfg = "Gen_Placeholder_" + fam + ".cfg"
+			}
+			raw, _, err := core.GenCases[string](ctx, core.TLCOpts{Dir: "file", Module: "Gen_Placeholder", Cfg: gcfg, Workers: 1, Timeout: ctx.Dur(8, 20), XssMB: 512, Mode: "evaluate",
 				Constants: "every complete behaviour of up to 6 calls, " + fam})
 			if err != nil {
 				return err
